@@ -2,7 +2,7 @@
 the viewer, hub delay blocks, save+restore of the viewer) with the required layer set; replayed into the base Viewer
 exhaustively and into the four matplotlib viewers on a sample. Part 2: ComponentIDComboHelper choices and selection under
 attribute add/remove/reorder, dataset add/remove and kind filters (E1)."""
-from harness import tlc, core
+from harness import tlc, core, hubtrace, viewertrace
 from harness.tlaval import to_json
 from harness.adapters import viewer as A
 
@@ -87,6 +87,7 @@ def run(ctx):
     for r in dres:
         for d in r['div']:
             ctx.report(core.Divergence.from_json(d))
+    _e2(ctx, quick)
     ctx.check_ops('Viewer parts 1+2', items, ['Append', 'Remove', 'NewGroup', 'RemoveGroup', 'ViewerAddData', 'ViewerRemoveData',
                                               'SaveRestoreViewer', 'DelayEnter', 'DelayExit', 'NewAlone', 'DeleteAlone', 'RemoveLayer', 'AddSubsetLayer', 'PickerAddData', 'PickerRemoveData',
                                               'AttrAdd', 'AttrRemove', 'AttrReorder', 'SetFilter', 'Select'])
@@ -108,7 +109,65 @@ def run(ctx):
                'harness-side Bundle(application, viewers) because the base Application does not track its viewers')
 
 
+REPO_TESTS_QUICK = ['glue/viewers/common/tests', 'glue/viewers/scatter/tests/test_viewer.py', 'glue/viewers/histogram/tests/test_viewer.py',
+                    'glue/viewers/scatter/tests/test_python_export.py', 'glue/core/tests/test_application_base.py']
+REPO_TESTS_THOROUGH = ['glue/viewers', 'glue/core/tests/test_application_base.py', 'glue/core/tests/test_state.py', 'glue/plugins', 'glue/dialogs']
+
+
+def _e2(ctx, quick):
+    """code -> spec: the viewers of the repository's own tests, recorded by harness/glue_tracer.py, validated by TLC against
+    Trace_Viewer.tla (the layer set required after every traced call on the viewer or its collection)"""
+    repo = core.use_repo()
+    with tlc.Workdir() as wd:
+        _, _, traces, tail = hubtrace.record_repo_tests(wd.file('repotests.json'), REPO_TESTS_QUICK if quick else REPO_TESTS_THOROUGH, repo,
+                                                        want_collections='viewers')
+        if len(traces) < (10 if quick else 60):
+            raise core.MachineryFailure('tracer recorded only %d viewer traces from the repository tests:\n%s' % (len(traces), tail))
+        accepted, rejected, states, kept = viewertrace.validate(wd, traces)
+        ctx.add_traces(kept, accepted)
+        ops = {}
+        for t in traces:
+            for e in t['events']:
+                ops[e['ev']] = ops.get(e['ev'], 0) + 1
+        ctx.cov['tlc_runs'].append({'label': 'E2 Trace_Viewer.tla', 'traces': kept, 'events_by_kind': ops, 'distinct_states': states,
+                                    'rejected': len(rejected), 'viewer_kinds': sorted(set(t['kind'] for t in traces))})
+        ctx.cov['states'] += states
+        for need in ('ViewerAddData', 'Adopt'):
+            if not ops.get(need):
+                raise core.MachineryFailure('vacuous trace validation: no %s event recorded' % need)
+        for t, eix in rejected:
+            ev = t['events']
+            e = ev[eix - 1] if eix <= len(ev) else {'ev': 'end'}
+            ctx.report(core.Divergence({'trace': t, 'first_unmatched': eix}, eix, 'trace event', 'the layers Viewer.tla requires after %s' % e['ev'],
+                                       {k: e.get(k) for k in ('coll', 'groups', 'alone', 'layers', 'slayers', 'delay')}, kind='trace:%s:%s' % (t.get('kind'), e['ev']),
+                                       note='recorded %s of the repository tests rejected by Trace_Viewer.tla; events: %s'
+                                            % (t.get('kind'), [x['ev'] + ':' + str(x.get('d', '')) + ':' + str(x.get('g', x.get('x', ''))) for x in ev[max(0, eix - 8):eix]])))
+        bad, kinds = [], {}
+        for t in traces:
+            for kind, ev in viewertrace.corruptions(t):
+                if kinds.get(kind, 0) < 5:
+                    kinds[kind] = kinds.get(kind, 0) + 1
+                    bad.append({'events': ev, 'kind': kind})
+        need = ['missing_layer', 'duplicate_layer', 'state_disagrees'] + ([] if quick else ['stale_layer', 'no_subset_layer'])
+        missing = [k for k in need if k not in kinds]
+        if missing:
+            raise core.MachineryFailure('binding self-test: no recorded viewer trace exhibits the situation needed for %s' % missing)
+        a2, rej2, st2, kept2 = viewertrace.validate(wd, bad, batch=1000)
+        if a2 != 0 or len(rej2) != len(bad):
+            raise core.MachineryFailure('binding self-test: %d of %d impossible viewer traces were ACCEPTED by Trace_Viewer.tla' % (a2, len(bad)))
+        ctx.cov['tlc_runs'].append({'label': 'E2 binding self-test', 'corrupted_traces': len(bad), 'rejected': len(rej2), 'kinds': kinds})
+
+
 def replay(div):
+    if 'trace' in div.behaviour:
+        with tlc.Workdir() as wd:
+            accepted, rejected, states, kept = viewertrace.validate(wd, [div.behaviour['trace']])
+        if not rejected:
+            print('replay: trace accepted')
+            return 0
+        print('VIOLATION property=C18 replay=(given)')
+        print('  first unmatched event %d' % rejected[0][1])
+        return 1
     from harness.core import use_repo
     use_repo()
     b = div.behaviour
